@@ -2,7 +2,7 @@ ENGINES = [
     {'name': 'kani', 'path': '/verif/kani', 'serves_properties': ['C02', 'C05'],
      'kind_free_text': 'Kani 0.68 / CBMC harness crate with a path dependency on /repo: proof harnesses over the scalar kernels (LineRange::{contains, overlaps, shift}, LineAttribution / Attribution intersection), run by the same ./check as a second opinion for the MIR engine'},
     {'name': 'mirsym', 'path': '/verif/mirsym',
-     'serves_properties': ['C01', 'C02', 'C03', 'C04', 'C05', 'C06', 'C07', 'C08', 'C09', 'C14', 'C15', 'C12', 'C16', 'C17', 'C18', 'C19'],
+     'serves_properties': ['C01', 'C02', 'C03', 'C04', 'C05', 'C06', 'C07', 'C08', 'C09', 'C14', 'C15', 'C20', 'C12', 'C16', 'C17', 'C18', 'C19'],
      'kind_free_text': 'symbolic executor over the MIR that rustc emits for /repo\'s working tree (regenerated per tree state); std modelled at the call boundary; z3 QF_BV decides every branch and every obligation; counterexamples replayed natively through /verif/replay'},
 ]
 NOTES = 'Every check: exit 0 = held for all inputs inside the stated bounds (KNOWN-FINDING lines allowed); exit 1 = natively reproducing violation; exit 2 = inconclusive (unsupported construct, solver unknown, model/native mismatch, vacuous harness) and is never reported as a pass.'
@@ -104,9 +104,14 @@ CHECKS['C15'] = {
     'note': 'equivalence with the content-replay algorithm on real histories is outside (the slow path drives blame and diff through git); soundness direction only: a comparator that declines more often keeps the property; reachability witnesses make sure the "identical" / "shortcut taken" answers are reached',
     'technique': 'MIR symbolic execution + z3 against a model of git diff-tree, native replay on real commits',
 }
+CHECKS['C20'] = {
+    'text': 'Kernel claim (what happens with whatever a preset returns). Bounded symbolic execution of the real checkpoint dispatcher (handle_checkpoint: argument scan, preset dispatch for all eleven preset names, single-repository and file-based repository detection, cross-repository routing through group_files_by_repository / find_repository_for_file over a model file system) and of the path filter at the head of checkpoint::run with the real Repository::path_is_in_workdir: for every preset outcome (arbitrary error or arbitrary result), kind, working directory, reported file list inside the bounds, per-repository checkpoint failure and configuration exclusion, the command ends by returning or with exit status 0 and never panics; an excluded repository is never touched; every file list routed to another repository holds only files of that repository and carries its work tree as working directory; every reported file that lies in a different, allowed repository reaches that repository\'s checkpoint and files in no repository reach nobody; the pathspecs handed to file discovery are relative, stay inside the work tree, are exactly the reported paths that lie inside it, and a report naming only outside files never lets file discovery run unrestricted. Counterexamples are replayed end to end: the real `git-ai checkpoint agent-v1 --hook-input <json>` on a scratch workspace with three repositories, observing exit status and the checkpoints written in each.',
+    'design_ref': 'DESIGN.md §4 C20',
+    'note': 'the preset parsers themselves (serde_json over eleven third-party schemas, transcript and sqlite readers) are NOT applicable to this family and are not claimed: arbitrary text through serde_json cannot be encoded; paths are concrete spellings chosen by the solver-driven explorer, not symbolic bytes; the working log staying readable is decided under C07',
+    'technique': 'MIR symbolic execution + z3 over a model file system, end-to-end native replay of the real command',
+}
 _PENDING = 'check not built yet in this round (under construction; see DESIGN.md §4)'
 NOT_APPLICABLE = {
-    'C20': _PENDING,
     'C10': 'convergence of notes across clones is decided by git\'s notes-merge / ref-transaction semantics over several repositories; git-ai\'s part is a fixed sequence of subprocess calls with no branch the solver could decide (DESIGN.md §7)',
     'C11': 'interleavings of processes over a file system and git ref locks; neither Kani nor the MIR executor models OS-level concurrency (DESIGN.md §7)',
     'C13': 'equivalence of two drivers of one state machine under sequences of real git operations; no input can be made symbolic without modelling git\'s rebase/cherry-pick/stash sequencing (DESIGN.md §7)',
